@@ -9,14 +9,25 @@ ASCII_WS = (9, 10, 11, 12, 13, 28, 29, 30, 31, 32)  # what str.strip() removes b
 
 
 class DecodedLine:
-    """Result of bytes.decode() on symbolic bytes, kept as a function of the byte tuple.  Only
-    what line handlers do before parsing is supported: stripping ASCII blanks, emptiness."""
+    """Result of bytes.decode() on symbolic bytes, kept as a function of the bytes: a sequence of
+    *runs*, each run being the byte tuple of one decode() call.  decode(a) + decode(b) is NOT
+    decode(a + b) when a character straddles the boundary, so runs are never merged.  What line
+    handlers do with text before parsing is supported: concatenation, splitting at LF (an LF byte
+    always decodes to an LF character and vice versa), stripping ASCII blanks, emptiness."""
 
-    def __init__(self, atoms, it=None):
-        self.atoms = tuple(atoms)
+    def __init__(self, atoms, it=None, runs=None):
+        self.runs = [tuple(r) for r in runs] if runs is not None else [tuple(atoms)]
+        self.runs = [r for r in self.runs if r] or [()]
         self.it = it
 
+    @property
+    def atoms(self):
+        return tuple(a for r in self.runs for a in r)
+
     def __len__(self):
+        return len(self.atoms)
+
+    def __symex_len__(self, it):
         return len(self.atoms)
 
     def _blank(self, p, x):
@@ -25,23 +36,93 @@ class DecodedLine:
             return x in ASCII_WS
         return p.branch(z3.Or([x == c for c in ASCII_WS]))
 
+    def __symex_binop__(self, it, t, other):
+        import ast
+        from symex.core import Unsupported
+        if t is not ast.Add:
+            raise Unsupported("operator on undecoded text")
+        if isinstance(other, DecodedLine):
+            return DecodedLine((), it, runs=self.runs + other.runs)
+        if isinstance(other, str):
+            if other == "":
+                return self
+            return DecodedLine((), it, runs=self.runs + [tuple(other.encode())])
+        raise Unsupported("concatenation of undecoded text with symbolic text")
+
+    def __symex_rbinop__(self, it, t, other):
+        import ast
+        from symex.core import Unsupported
+        if t is ast.Add and isinstance(other, str):
+            if other == "":
+                return self
+            return DecodedLine((), it, runs=[tuple(other.encode())] + self.runs)
+        raise Unsupported("operator on undecoded text")
+
     def __symex_getattr__(self, it, name):
-        if name not in ("strip", "rstrip", "lstrip"):
-            from symex.core import Unsupported
-            raise Unsupported(f"str.{name} on an undecoded line")
+        from symex.core import Unsupported
         line = self
+        if name == "split":
+            def split(sep=None, maxsplit=-1):
+                if sep != "\n" or maxsplit != -1:
+                    raise Unsupported("str.split on undecoded text other than at LF")
+                out, cur, run = [], [], []
+                for r in line.runs:
+                    run = []
+                    for a in r:
+                        is_lf = (a == 10) if isinstance(a, int) else it.p.branch(a == 10)
+                        if is_lf:
+                            cur.append(run)
+                            out.append(DecodedLine((), it, runs=cur))
+                            cur, run = [], []
+                        else:
+                            run.append(a)
+                    cur.append(run)
+                out.append(DecodedLine((), it, runs=cur))
+                return out
+            split.__symex_native__ = True
+            return split
+        if name not in ("strip", "rstrip", "lstrip"):
+            raise Unsupported(f"str.{name} on an undecoded line")
 
         def strip(*args):
-            atoms = list(line.atoms)
+            runs = [list(r) for r in line.runs if r]
             if name in ("strip", "lstrip"):
-                while atoms and line._blank(it.p, atoms[0]):
-                    atoms.pop(0)
+                while runs and line._blank(it.p, runs[0][0]):
+                    runs[0].pop(0)
+                    if not runs[0]:
+                        runs.pop(0)
             if name in ("strip", "rstrip"):
-                while atoms and line._blank(it.p, atoms[-1]):
-                    atoms.pop()
-            return DecodedLine(atoms, it)
+                while runs and line._blank(it.p, runs[-1][-1]):
+                    runs[-1].pop()
+                    if not runs[-1]:
+                        runs.pop()
+            return DecodedLine((), it, runs=runs)
         strip.__symex_native__ = True
         return strip
+
+
+def piecewise_equal(w, line):
+    """A delivered line that was decoded in several pieces equals the decoding of the whole line
+    iff no character straddles a piece boundary.  Violation (with concrete bytes) when a valid
+    2- or 3-byte character can straddle one; proved equal when every boundary follows an ASCII
+    byte; otherwise undecided."""
+    import z3
+    from symex.core import Unsupported
+    runs = [r for r in line.runs if r]
+    if len(runs) <= 1:
+        return
+    straddle, ascii_before = [], []
+    for a, b in zip(runs, runs[1:]):
+        x, y = C.as_int(a[-1]), C.as_int(b[0])
+        two = w.and_(w.le(0xC2, x), w.le(x, 0xDF), w.le(0x80, y), w.le(y, 0xBF))
+        three = w.and_(w.le(0xE1, x), w.le(x, 0xEC), w.le(0x80, y), w.le(y, 0xBF))
+        straddle.append(w.or_(two, three))
+        ascii_before.append(w.lt(x, 0x80))
+    # (a multi-byte character split across two chunks and decoded piecewise; same label as the
+    # byte-wise comparison below, which is what the native replay evaluates)
+    w.check(w.not_(w.or_(*straddle)), "delivered line differs from the split of the whole stream")
+    if not w.is_true(w.and_(*ascii_before)):
+        raise Unsupported("equality of piecewise and whole-line decoding is undecided here")
 
 
 def is_blank(w, atoms):
@@ -117,6 +198,8 @@ def segmentation(nbytes, maxchunks):
             got = [g_ for g_ in got if not is_blank(w, atoms_of(g_))]
             w.check(len(got) == len(want), "number of delivered lines depends on the chunking")
             for g_, e_ in zip(got, want):
+                if w.symbolic and isinstance(g_, DecodedLine):
+                    piecewise_equal(w, g_)
                 if w.symbolic:
                     ga = list(g_.atoms) if isinstance(g_, DecodedLine) else \
                         [ord(c) for c in g_] if isinstance(g_, str) else list(g_.cs)
@@ -127,7 +210,9 @@ def segmentation(nbytes, maxchunks):
                     w.check(g_ == bytes(e_).decode("utf-8", "replace"),
                             "delivered line differs from the split of the whole stream")
             buf = proto.buffer
-            rest = list(buf.atoms) if hasattr(buf, "atoms") else list(buf)
+            rest = list(buf.atoms) if hasattr(buf, "atoms") else \
+                list(buf.cs) if hasattr(buf, "cs") else \
+                list(buf.encode()) if isinstance(buf, str) else list(buf)
             w.check(len(rest) == len(cur), "bytes after the last LF are not kept buffered")
             w.goal("lines" if want else "no-line")
     return fn
